@@ -863,7 +863,6 @@ func pathBlocks(p *Path) string {
 	return PathString(idx)
 }
 
-
 // c02PublishBeforeStarted decides O2.10.
 func c02PublishBeforeStarted(c *Ctx, pkgFns []*ssa.Function) {
 	P := c.P
@@ -1043,7 +1042,6 @@ func c02PublishBeforeStarted(c *Ctx, pkgFns []*ssa.Function) {
 	}
 	c.Floor("O2.10", "MarkStarted calls in schedules whose readers ask IsStarted()", nMark, 2)
 }
-
 
 // c02ReadAfterStart decides O2.11 (also used by C12 for the startup profile's timing).
 func c02ReadAfterStart(c *Ctx, id string, pkgFns []*ssa.Function) {
